@@ -43,6 +43,7 @@ type hhCase struct {
 type hhState struct {
 	root    dom.ContainerBuilder
 	handles []dom.Node
+	used    []string // generator only: root-relative paths written so far (re-used to re-create positions)
 }
 
 func hhNewState(start W, build int) *hhState {
@@ -397,6 +398,18 @@ func hhGenOp(r *rand.Rand, g *DocGen, st *hhState) hhOp {
 			return op
 		}
 	}
+	// a path: below / at / above an existing position, or next to a position written earlier in the
+	// history (same parent path, which may have been removed or replaced since)
+	somePath := func() string {
+		if op.On == nil && len(st.used) > 0 && r.Intn(3) == 0 {
+			p := pick(r, st.used)
+			if i := strings.LastIndexByte(p, '.'); i > 0 && r.Intn(4) > 0 {
+				return p[:i+1] + c03Component(r)
+			}
+			return p
+		}
+		return c03Path(r, paths)
+	}
 	existingName := func() string {
 		if ch := t.(dom.Container).Children(); len(ch) > 0 && r.Intn(4) > 0 {
 			return pick(r, sortedKeys(ch))
@@ -405,7 +418,7 @@ func hhGenOp(r *rand.Rand, g *DocGen, st *hhState) hhOp {
 	}
 	switch k := r.Intn(24); {
 	case k < 6:
-		op.Op, op.Path = "addvalueat", c03Path(r, paths)
+		op.Op, op.Path = "addvalueat", somePath()
 		value()
 	case k < 8:
 		op.Op, op.Path = "addvalue", c03Component(r)
@@ -417,11 +430,11 @@ func hhGenOp(r *rand.Rand, g *DocGen, st *hhState) hhOp {
 	case k == 13:
 		op.Op, op.Path = "remove", existingName()
 	case k < 16:
-		op.Op, op.Path = "removeat", c03Path(r, paths)
+		op.Op, op.Path = "removeat", somePath()
 	case k < 18:
 		op.Op, op.Path = "child", existingName()
 	case k < 22:
-		op.Op, op.Path = "lookup", c03Path(r, paths)
+		op.Op, op.Path = "lookup", somePath()
 	default:
 		op.Op = "compact"
 	}
@@ -457,6 +470,9 @@ func heapHistGen(c *Ctx, n int) {
 				break
 			}
 			hc.Ops = append(hc.Ops, op)
+			if op.On == nil && op.Op == "addvalueat" {
+				st.used = append(st.used, op.Path)
+			}
 		}
 		c.Do("heap-hist", hc)
 	}
